@@ -89,7 +89,7 @@
    atomic operations, tables at the grow / shrink thresholds, Clear), every
    history checked for linearizability against map[string]interface{}. *)
 From CacheV Require Import Base SpecMap TableModel TabExec Exec XMachineS XExec XExecS.
-From CacheV.proofs Require Import C11_lists C11_table C11_idx X_maps XS_inv XS_lock XS_own XS_count XS_inst XS_cells XS_vis XS_abs XS_cinst XS_resize XS_rinst XS_read XS_rdinst.
+From CacheV.proofs Require Import C11_lists C11_table C11_idx X_maps XS_inv XS_lock XS_own XS_count XS_inst XS_cells XS_vis XS_abs XS_cinst XS_resize XS_rinst XS_read XS_rdinst XS_loadhit XS_lhinst XS_fn XS_size XS_loadmiss XS_lminst XS_range.
 From Coq Require Import NArith.
 
 Theorem C03_sequential :
@@ -386,3 +386,121 @@ Example C03_value_nonvacuous :
      = SRes 1%nat (SRVal (Some 1%nat) true).
 Proof. exact read_nonvacuous. Qed.
 Print Assumptions C03_value_nonvacuous.
+
+(* ---------------- readers under every schedule; user function; Size (XMachineS) ---------------- *)
+
+Theorem C03_load_hit :
+  forall (K V : Type) (eqd : forall a b : K, {a = b} + {a <> b}) hash idx tophash nslots seeds g sh nstripes minlen grow_only,
+    lhhyps hash idx tophash nslots minlen -> forall len0 todo sched0 sched t k lc tab v s2 ls2, (0 < len0)%nat ->
+    let sr := @srun K V eqd hash idx tophash nslots seeds g sh nstripes minlen grow_only in
+    let s := fst (sr (sinit nslots seeds nstripes len0 todo) sched0) in
+    salong eqd hash idx tophash nslots seeds g sh nstripes minlen grow_only (XS_loadhit.inlookup hash nslots nstripes t k lc tab) s sched ->
+    (match h_pc s t with QL_Val _ _ _ _ _ _ | QL_Key _ _ _ _ _ _ _ | QL_Val2 _ _ _ _ _ _ _ _ => False | _ => True end) ->
+    @sstep K V eqd hash idx tophash nslots seeds g sh nstripes minlen grow_only (fst (sr s sched)) t = Some (s2, ls2) ->
+    (exists l, In l ls2 /\ XS_loadhit.hit t v l) ->
+    sever eqd hash idx tophash nslots seeds g sh nstripes minlen grow_only
+          (fun s' => svis hash idx tophash nslots (stab_at nslots nstripes s' tab) k v) s sched.
+Proof. exact @s_load_hit_proof. Qed.
+Print Assumptions C03_load_hit.
+
+Theorem C03_fn_at_most_once :
+  forall (K V : Type) (eqd : forall a b : K, {a = b} + {a <> b}) hash idx tophash nslots seeds g sh nstripes minlen grow_only len0 todo sched t,
+    let r := @srun K V eqd hash idx tophash nslots seeds g sh nstripes minlen grow_only (sinit nslots seeds nstripes len0 todo) sched in
+    fst (XS_fn.fnc t (0, 0)%nat (snd r)) = 0%nat /\ (snd (XS_fn.fnc t (0, 0)%nat (snd r)) <= 1)%nat
+    /\ (XS_fn.cdone (h_pc (fst r) t) = false -> snd (XS_fn.fnc t (0, 0)%nat (snd r)) = 0%nat)
+    /\ (XS_fn.crange (h_pc (fst r) t) = true -> snd (XS_fn.fnc t (0, 0)%nat (snd r)) = 0%nat).
+Proof. exact @XS_fn.fn_at_most_once. Qed.
+Print Assumptions C03_fn_at_most_once.
+
+Theorem C03_quiescent_size_exact :
+  forall (K V : Type) (eqd : forall a b : K, {a = b} + {a <> b}) hash idx tophash nslots seeds g sh nstripes minlen grow_only,
+    szhyps hash idx tophash nslots nstripes minlen -> forall len0 todo sched t rest, (0 < len0)%nat ->
+    let sr := @srun K V eqd hash idx tophash nslots seeds g sh nstripes minlen grow_only in
+    let s := fst (sr (sinit nslots seeds nstripes len0 todo) sched) in
+    (forall u, XS_size.modifying (h_pc s u) = false) -> h_pc s t = QIdle -> h_todo s t = SSize :: rest ->
+    let tb := stab_at nslots nstripes s (h_cur s) in
+    let l := XS_size.tpairs tb in
+    let r := sr s (repeat t (S (snstr tb))) in
+    In (SRes t (SRNat (Z.of_nat (length l)))) (snd r)
+    /\ (forall k v, In (k, v) l <-> sabs hash idx tophash nslots nstripes s k v) /\ NoDup (map fst l)
+    /\ h_pc (fst r) t = QIdle /\ sshared_eq s (fst r)
+    /\ (forall t', t' <> t -> h_pc (fst r) t' = h_pc s t').
+Proof. exact @XS_size.quiescent_size_exact. Qed.
+Print Assumptions C03_quiescent_size_exact.
+
+(* non-vacuity (vm_compute'd states in proofs/XS_lhinst.v, XS_fn.v, XS_size.v): a reader that has loaded the bucket
+   word, a deleter that has then cleared the presence bit, the reader still returning the value; a Compute whose
+   grow-retry gives one evaluation and two nested visitor calls counted separately; a quiescent state where Size returns 3 *)
+Definition C03_load_hit_nonvacuous := loadhit_nonvacuous.
+Definition C03_fn_nonvacuous := XS_fn.fn_nonvacuous.
+Definition C03_size_nonvacuous := XS_size.size_nonvacuous.
+Print Assumptions C03_load_hit_nonvacuous.
+Print Assumptions C03_fn_nonvacuous.
+Print Assumptions C03_size_nonvacuous.
+
+(* ---------------- misses; traversals with re-entrant visitors (XMachineS, every schedule) ---------------- *)
+
+Theorem C03_load_no_miss :
+  forall (K V : Type) (eqd : forall a b : K, {a = b} + {a <> b}) hash idx tophash nslots seeds g sh nstripes minlen grow_only,
+    lhhyps hash idx tophash nslots minlen -> forall len0 todo sched0 sched t k lc tab s2 ls2, (0 < len0)%nat ->
+    let sr := @srun K V eqd hash idx tophash nslots seeds g sh nstripes minlen grow_only in
+    let s := fst (sr (sinit nslots seeds nstripes len0 todo) sched0) in
+    salong eqd hash idx tophash nslots seeds g sh nstripes minlen grow_only (XS_loadmiss.stays hash idx tophash nslots nstripes t k lc tab) s sched ->
+    (exists k' lc' tab' h, h_pc s t = QL_Top k' lc' tab' h 0) ->
+    @sstep K V eqd hash idx tophash nslots seeds g sh nstripes minlen grow_only (fst (sr s sched)) t = Some (s2, ls2) ->
+    ~ endchain t (fst (sr s sched)) ls2.
+Proof. exact @s_load_no_miss_proof. Qed.
+Print Assumptions C03_load_no_miss.
+
+Theorem C03_load_absent :
+  forall (K V : Type) (eqd : forall a b : K, {a = b} + {a <> b}) hash idx tophash nslots seeds g sh nstripes minlen grow_only,
+    lhhyps hash idx tophash nslots minlen -> forall len0 todo sched0 sched t k lc tab s2 ls2, (0 < len0)%nat ->
+    let sr := @srun K V eqd hash idx tophash nslots seeds g sh nstripes minlen grow_only in
+    let s := fst (sr (sinit nslots seeds nstripes len0 todo) sched0) in
+    salong eqd hash idx tophash nslots seeds g sh nstripes minlen grow_only (XS_loadhit.inlookup hash nslots nstripes t k lc tab) s sched ->
+    (exists k' lc' tab' h, h_pc s t = QL_Top k' lc' tab' h 0) ->
+    @sstep K V eqd hash idx tophash nslots seeds g sh nstripes minlen grow_only (fst (sr s sched)) t = Some (s2, ls2) ->
+    In (SRes t (SRVal None false)) ls2 \/ In (SSubRes t (SRVal None false)) ls2 ->
+    sever eqd hash idx tophash nslots seeds g sh nstripes minlen grow_only
+          (fun s' => forall v, ~ svis hash idx tophash nslots (stab_at nslots nstripes s' tab) k v) s sched.
+Proof. exact @s_load_absent_proof. Qed.
+Print Assumptions C03_load_absent.
+
+Theorem C03_range_once :
+  forall (K V : Type) (eqd : forall a b : K, {a = b} + {a <> b}) hash idx tophash nslots seeds g sh nstripes minlen grow_only,
+    rdhyps hash idx tophash nslots minlen -> forall len0 todo sched t, (0 < len0)%nat ->
+    NoDup (map fst (XS_range.cv t [] (snd (@srun K V eqd hash idx tophash nslots seeds g sh nstripes minlen grow_only (sinit nslots seeds nstripes len0 todo) sched)))).
+Proof. exact @XS_range.range_once_proof. Qed.
+Print Assumptions C03_range_once.
+
+Theorem C03_range_snapshot :
+  forall (K V : Type) (eqd : forall a b : K, {a = b} + {a <> b}) hash idx tophash nslots seeds g sh nstripes minlen grow_only,
+    rdhyps hash idx tophash nslots minlen -> forall len0 todo sched t tab b w snap vf a, (0 < len0)%nat ->
+    let s := fst (@srun K V eqd hash idx tophash nslots seeds g sh nstripes minlen grow_only (sinit nslots seeds nstripes len0 todo) sched) in
+    h_pc s t = QU_Load tab b (Some (snap, vf)) a \/ h_pc s t = QU_Store tab b w (Some (snap, vf)) a ->
+    NoDup (map fst snap)
+    /\ (forall k v, In (k, v) snap <-> (svis hash idx tophash nslots (stab_at nslots nstripes s tab) k v
+                                        /\ shome hash idx (stab_at nslots nstripes s tab) k = b))
+    /\ lock_of nslots nstripes s tab b = Some t.
+Proof. exact @XS_range.range_snapshot_proof. Qed.
+Print Assumptions C03_range_snapshot.
+
+Theorem C03_range_complete :
+  forall (K V : Type) (eqd : forall a b : K, {a = b} + {a <> b}) hash idx tophash nslots seeds g sh nstripes minlen grow_only,
+    rdhyps hash idx tophash nslots minlen -> forall len0 todo sched0 sched t tab vf k v, (0 < len0)%nat ->
+    let sr := @srun K V eqd hash idx tophash nslots seeds g sh nstripes minlen grow_only in
+    let s0 := fst (sr (sinit nslots seeds nstripes len0 todo) sched0) in
+    h_pc s0 t = QK_Load tab 0 (LKRange vf) ->
+    XS_range.along eqd hash idx tophash nslots seeds g sh nstripes minlen grow_only
+          (fun s => svis hash idx tophash nslots (stab_at nslots nstripes s tab) k v) s0 sched ->
+    h_pc (fst (sr s0 sched)) t = QIdle ->
+    In (k, v) (XS_range.allvis t (snd (sr s0 sched))).
+Proof. exact @XS_range.range_complete_proof. Qed.
+Print Assumptions C03_range_complete.
+
+Definition C03_nomiss_nonvacuous := nomiss_nonvacuous.
+Definition C03_miss_nonvacuous := miss_nonvacuous.
+Definition C03_range_nonvacuous := XS_range.range_nonvacuous.
+Print Assumptions C03_nomiss_nonvacuous.
+Print Assumptions C03_miss_nonvacuous.
+Print Assumptions C03_range_nonvacuous.
